@@ -4,7 +4,11 @@ Crash-point enumeration on the real code, implementation-agnostic: one cache upd
 under strace; the recorded file-system syscalls on the cache directory ARE the write programme.
 Every prefix of that programme with every byte-level truncation of every write is materialised
 in a fresh copy of the pre-update directory and the real GetCached() is run on it; the trace
-(programme + result per crash point) is validated by TraceAutoconfCache (ReadOK at every point)."""
+(programme + result per crash point) is validated by TraceAutoconfCache (ReadOK at every point).
+Second phase per crash point (sampled in quick, all in thorough): a restarted client refreshes
+(real GetLatest) against a server that still serves the new version with HTTP validators (304 to the
+matching If-None-Match / If-Modified-Since, the same payload otherwise), then GetCached() again:
+RefreshReadOK in the spec, which knows from its own image which validator the client found."""
 import base64, json, os, re, shutil, socket, subprocess, threading, time
 
 META = dict(
@@ -15,7 +19,12 @@ META = dict(
                 "(before every syscall incl. cleanup unlinks and after every byte of every write) is materialised for every cache size "
                 "(1, 2, 3, default; quick: 1 and 3) after 0..3 (quick 0..2) earlier successful updates, the real GetCached() is executed on each, and the whole enumeration is validated as a trace against "
                 "the spec, which keeps its own image of the directory and evaluates ReadOK (incl. Durable: nothing the cache held at the "
-                "start of the update is lost) at every crash point."),
+                "start of the update is lost) at every crash point. The updates carry HTTP validators (ETag, Last-Modified), whose files "
+                "are part of the programme and of the spec's state; for the crash points (quick: every syscall boundary + sampled "
+                "truncations; thorough: all) a restarted real client then refreshes against the unchanged server (304 / 200) and the "
+                "following GetCached() must satisfy RefreshReadOK (re-fetched => the new version; 304 => new or newest valid at the "
+                "crash point, never the fallback while one existed). Design model 3 (history with validator file, 304/skip/save "
+                "restarts) is model-checked for the as-built order; validator-before-main-file must fail."),
     level_note="Trusted: strace's syscall record; crash = process stop (page cache survives; no power-loss reordering); projection = payload-prefix matching of written bytes.",
     technique="TLA+ crash model; exhaustive crash-point enumeration of the strace-recorded write programme replayed into real GetCached(); trace validated by TLC",
     fault_enumeration=True,
@@ -119,20 +128,24 @@ def run(ctx):
     #         the controls (as-built-before-the-fix reader, prune-before-write writer, bounded-window reader) must fail.
     #         Runs in a background thread while the harness is built and the updates are recorded (it only touches
     #         cov[states/transitions/phases] and brokens, which the main thread does not use before the join).
-    good = ["MC2_direct_newestValid_1.cfg", "MC2_direct_newestValid_3.cfg"]
-    controls = ["MC2ctl_pruneBefore_1.cfg", "MC2ctl_window_1.cfg"]
+    # model 3 (= model 2 + validator metadata + restart-and-refresh) subsumes model 2 for the as-built pair
+    good = ["MC3q_direct_newestValid_1.cfg", "MC3q_direct_newestValid_3.cfg"]
+    controls = ["MC2ctl_pruneBefore_1.cfg", "MC2ctl_window_1.cfg", "MC3ctl_etagFirst_1.cfg"]
     if not ctx.quick:
-        good += ["MC_direct_newestValid.cfg", "MC_atomic_newest.cfg", "MC_atomic_newestValid.cfg", "MC2_direct_newestValid_2.cfg",
+        good += ["MC2_direct_newestValid_1.cfg", "MC2_direct_newestValid_3.cfg",
+                 "MC3_direct_newestValid_1.cfg", "MC3_direct_newestValid_2.cfg", "MC3_direct_newestValid_3.cfg",
+                 "MC_direct_newestValid.cfg", "MC_atomic_newest.cfg", "MC_atomic_newestValid.cfg", "MC2_direct_newestValid_2.cfg",
                  "MC2_atomic_newest_1.cfg", "MC2_atomic_newest_2.cfg", "MC2_atomic_newest_3.cfg",
                  "MC2_atomic_newestValid_1.cfg", "MC2_atomic_newestValid_2.cfg", "MC2_atomic_newestValid_3.cfg"]
         controls += ["MC_direct_newest.cfg", "MC2_direct_newest_1.cfg", "MC2_direct_newest_2.cfg", "MC2ctl_pruneBefore_2.cfg", "MC2ctl_pruneBefore_3.cfg",
-                     "MC2ctl_window_2.cfg", "MC2ctl_window_3.cfg"]
+                     "MC2ctl_window_2.cfg", "MC2ctl_window_3.cfg",
+                     "MC3ctl_etagFirst_2.cfg", "MC3ctl_etagFirst_3.cfg"]
     ctx.specdir("AutoconfCache")
 
     def phase_m():
         try:
             for cfg in good:
-                ctx.tlc_mc("AutoconfCache", "AutoconfCache.tla", cfg, timeout=300, deadlock=False, workers=2)
+                ctx.tlc_mc("AutoconfCache", "AutoconfCache.tla", cfg, timeout=600, deadlock=False, workers=2)
             for cfg in controls:
                 c = ctx.tlc_mc("AutoconfCache", "AutoconfCache.tla", cfg, timeout=300, deadlock=False, workers=2,
                                expect_violation=True)
@@ -151,9 +164,18 @@ def run(ctx):
 def run_binding(ctx, CSs, Ks, mth):
     binp = ctx.go_build("autoconf", ["autoconf/zz_verif_C45_test.go"])
     recs, out, rc = ctx.go_run(binp, "TestVerifC45", pkg="autoconf", mode="payload")
-    payload = {r["ver"]: base64.b64decode(r["data"]) for r in recs}
+    payload = {r["ver"]: base64.b64decode(r["data"]) for r in recs if "ver" in r}
     if rc != 0 or len(payload) < 5:
         ctx.broken("payload mode failed: " + out[-800:]); return
+    # HTTP validators of the versions and the metadata files the client keeps them in (the file names are the
+    # trace cfg's EtagName / LMName; a client that stores them elsewhere is reported as broken binding below)
+    ETAG_FILE, LM_FILE = ".etag", ".last-modified"
+    validators = {ETAG_FILE: {r["ver"]: r["etag"].encode() for r in recs if "ver" in r},
+                  LM_FILE: {r["ver"]: r["lm"].encode() for r in recs if "ver" in r}}
+    for tab in validators.values():
+        if len({len(x) for x in tab.values()}) != 1 or any(a != b and b.startswith(a) for a in tab.values() for b in tab.values()):
+            ctx.broken("validators must have one length and be prefix-free"); return
+    elen, llen = len(validators[ETAG_FILE][1]), len(validators[LM_FILE][1])
     url = "http://127.0.0.1:%d/autoconf.json" % free_port()
     base = os.path.join(ctx.work, "c45"); os.makedirs(base)
 
@@ -178,14 +200,15 @@ def run_binding(ctx, CSs, Ks, mth):
             raise RuntimeError("cache size %s not configured: %s" % (cs, ok))
         return ok[0]["cacheDir"]
 
-    def classify(data):
-        for v, p in payload.items():
+    def classify(data, name=None):
+        """version whose payload (validator, for the two validator files) `data` is a prefix of; 0 = none"""
+        for v, p in sorted((validators.get(name) or payload).items()):
             if data and p.startswith(data):
                 return v
         return 0
     is_full = lambda d: any(d == p for p in payload.values())
 
-    events, reads = [], []
+    events, reads, refresh = [], [], []
     for cs in CSs:
         # live lineage: K successful updates with this cache size (file names carry the unix second: the straced update of
         # the copy and the next live update both happen at least 1.1 s after the previous live update)
@@ -257,18 +280,24 @@ def run_binding(ctx, CSs, Ks, mth):
             finals = sorted({n for n, d in img.items() if is_full(d)} | {n for n, d in fin.items() if is_full(d)})
             names = sorted(set(img) | set(fin) | {o[1] for o in ops} | {o[2] for o in ops if o[0] == "rename"})
             events.append(dict(ev="Reset", K=K, cs=cs, vnew=vnew, full=[len(payload[v]) for v in sorted(payload)], names=names,
-                               finals=finals, files=[[n, classify(d), len(d)] for n, d in sorted(img.items())]))
+                               finals=finals, files=[[n, classify(d, n), len(d)] for n, d in sorted(img.items())],
+                               elen=elen, llen=llen))
+            if K >= 1 and not (img.get(ETAG_FILE) == validators[ETAG_FILE][K] and img.get(LM_FILE) == validators[LM_FILE][K]):
+                ctx.broken("after %d successful updates the cache does not hold the validators of version %d in %s / %s: %s" %
+                           (K, K, ETAG_FILE, LM_FILE, sorted(img))); return
             cur = dict(img)
             idx = [0]
 
-            def crash(pname="", pver=0, plen=0, image=None, nontrivial=False):
+            def crash(pname="", pver=0, plen=0, image=None, nontrivial=False, group=None):
                 d = os.path.join(base, "crash", "cs%d_K%d_%05d" % (cs, K, idx[0])); idx[0] += 1
                 dd = os.path.join(d, cachedir_rel); os.makedirs(dd)
                 for n, data in (image if image is not None else cur).items():
                     open(os.path.join(dd, n), "wb").write(data)
                 events.append(dict(ev="CrashRead", pname=pname, pver=pver, plen=plen, result=None, K=K, cs=cs))
                 reads.append((len(events) - 1, d, nontrivial, cs))
-            for o in ops:
+                # phase 2 candidates: group None = a syscall boundary, else (programme, write) of a truncation
+                refresh.append((len(events) - 1, d, cs, vnew, group))
+            for oi, o in enumerate(ops):
                 if o[0] == "create":
                     crash()
                     if o[2] or o[1] not in cur:
@@ -277,11 +306,12 @@ def run_binding(ctx, CSs, Ks, mth):
                 elif o[0] == "write":
                     name, data = o[1], o[2]
                     before = cur.get(name, b"")
-                    v = classify(before + data)
+                    v = classify(before + data, name)
                     crash()
                     for k in range(1, len(data)):
                         im = dict(cur); im[name] = before + data[:k]
-                        crash(pname=name, pver=v, plen=len(before) + k, image=im, nontrivial=(v == vnew))
+                        crash(pname=name, pver=v, plen=len(before) + k, image=im,
+                              nontrivial=(v == vnew and name not in validators), group=(cs, K, oi))
                     cur[name] = before + data
                     events.append(dict(ev="Write", name=name, ver=v, off=len(before), n=len(data)))
                 elif o[0] == "rename":
@@ -312,14 +342,56 @@ def run_binding(ctx, CSs, Ks, mth):
             ctx.nontrivial("cs%s-K%s-%d" % (c, events[ei]["K"], events[ei]["plen"]))
     ctx.cov["evaluations"] += len(reads)
     ctx.cov["exhaustive"] = True
+
+    # ---- second phase: crash -> RESTART -> real refresh against the unchanged server (304 to the matching validator,
+    #      the same new payload otherwise) -> GetCached().  The refresh modifies the crash directory, so it runs after
+    #      all the plain reads.  thorough: every crash point; quick: every syscall boundary, and of every write the
+    #      first, the last and a few random truncations.
+    if ctx.quick:
+        groups = {}
+        for x in refresh:
+            if x[4] is not None:
+                groups.setdefault(x[4], []).append(x)
+        chosen = [x for x in refresh if x[4] is None]
+        for g, xs in sorted(groups.items()):
+            pick = {0, len(xs) - 1} | set(ctx.rng.sample(range(len(xs)), min(4, len(xs))))
+            chosen += [xs[j] for j in sorted(pick)]
+        chosen.sort(key=lambda x: x[0])
+    else:
+        chosen = refresh
+    inp = ctx.write_ndjson("refreshdirs.ndjson", [dict(dir=d, cs=c, ver=v) for _, d, c, v, _ in chosen])
+    recs, out, rc = ctx.go_run(binp, "TestVerifC45", pkg="autoconf", mode="refresh", infile=inp, env={"C45_URL": url}, timeout=1500)
+    res = {r["i"]: r for r in recs if "i" in r}
+    if rc != 0 or len(res) != len(chosen):
+        ctx.broken("refresh driver died: %s" % out[-1000:]); return
+    n304 = 0
+    for j, (ei, d, c, v, g) in enumerate(chosen):
+        events[ei]["_r2"] = dict(ev="RefreshRead", pname=events[ei]["pname"], pver=events[ei]["pver"], plen=events[ei]["plen"],
+                                 result=res[j]["result"], detail=res[j]["detail"], status=res[j]["status"], err=res[j]["err"],
+                                 K=events[ei]["K"], cs=c)
+        if res[j]["status"] == 304:
+            n304 += 1
+            ctx.nontrivial("refresh304-cs%s-K%s-%s-%d" % (c, events[ei]["K"], events[ei]["pname"], events[ei]["plen"]))
+    ctx.log("phase 2: %d of %d crash points refreshed (%d answered 304 Not Modified)" % (len(chosen), len(refresh), n304))
+    if n304 == 0 or n304 == len(chosen):
+        ctx.broken("phase 2 is vacuous: %d of %d refreshes were answered 304" % (n304, len(chosen))); return
+    ctx.cov["evaluations"] += len(chosen)
     shutil.rmtree(os.path.join(base, "crash"), ignore_errors=True)
+    ev2 = []
+    for e in events:                      # a RefreshRead follows the CrashRead of its crash point
+        r2 = e.pop("_r2", None)
+        ev2.append(e)
+        if r2:
+            ev2.append(r2)
+    events = ev2
 
     def corrupt(rs):
         # binding control on the first (cs, K >= 1) run only (one TLC start, short trace): pretend the reader fell back
-        # although a valid version exists
+        # although a valid version exists -- in the plain read (odd seeds) or in the read after restart+refresh (even seeds)
+        kind = "CrashRead" if ctx.seed % 2 else "RefreshRead"
         resets = [i for i, r in enumerate(rs) if r["ev"] == "Reset"]
         for a, b in zip(resets, resets[1:] + [len(rs)]):
-            idx = [i for i in range(a, b) if rs[i]["ev"] == "CrashRead" and rs[i]["result"] >= 1 and rs[i]["pname"]]
+            idx = [i for i in range(a, b) if rs[i]["ev"] == kind and rs[i]["result"] >= 1 and rs[i]["pname"]]
             if idx:
                 i = idx[len(idx) // 2]
                 bad = [dict(r) for r in rs[a:b]]
